@@ -430,8 +430,13 @@ def fix_starred_imports(source: str) -> str:
                 level=0,
             )
 
-    # Remove remaining starred imports
+    # Remove remaining starred imports, unless what they provide is unknown
     for node in core.filter_nodes(root.body, template):
+        if node.level or node.module is None:
+            continue
+        if node.module not in constants.PYTHON_311_STDLIB:
+            if not _trace_module_source_file(node.module):
+                continue
         if not core.match_template(node, tuple(starred_import_name_mapping)):
             yield node, None
 
